@@ -17,7 +17,7 @@ RULE = ("operation sequences over {NMT command cs in {1,2,128,129,130,0,3,127,25
         "non-trivial = sequence with >= 1 mode change; distinct by operation sequence")
 ASSUMPTIONS = ["delivery of unclaimed frames in STOPPED and INITIALISING is not constrained (DESIGN.md A.3)",
                "intermediate mode notifications during a reset are not constrained; the last one must equal the final mode",
-               "CONmtSetMode(PRE-OPERATIONAL) while INITIALISING is not generated (boot-up there is open)"]
+               "the scripted application reactions inside CONmtModeChange are armed for PRE-OPERATIONAL, OPERATIONAL and STOPPED, not for the notification of INITIALISING"]
 VARIANTS = ["asan"]
 
 INIT, PREOP, OP, STOP, DEAD = 1, 2, 3, 4, 0
@@ -56,6 +56,14 @@ def alphabet(nid):
     return ops
 
 
+def callback_ops():
+    """Reactions of the application inside the mode change callback (API calls made from inside callbacks): a self-starting device
+    (PRE-OPERATIONAL -> OPERATIONAL), a device refusing OPERATIONAL or STOPPED, a status PDO triggered on a mode change."""
+    ops = [("cbset", a, b) for a in (PREOP, OP, STOP) for b in (PREOP, OP, STOP) if a != b]
+    ops += [("cbtrig", a) for a in (PREOP, OP, STOP)] + [("cboff",)]
+    return ops
+
+
 class Model:
     def __init__(self, nid):
         self.nid = nid
@@ -67,6 +75,8 @@ class Model:
         self.srpdo_pending = None     # received in OPERATIONAL, waiting for the next SYNC
         self.hbc_state = None
         self.nprobe = 0
+        self.cb = None                # scripted reaction of the application inside CONmtModeChange: ("set", trigger, target) / ("trig", trigger)
+        self.transit = False          # the last operation changed the mode at least once (even if it ended where it began)
 
     def reset(self, tick):
         self.emcy = False
@@ -109,53 +119,86 @@ class Check:
         return self.ok
 
 
+def enter(m, x, extra):
+    """The node enters mode x (a real change): the application is informed and its scripted reaction runs inside the callback; the
+    mode the node ends in is the one requested last."""
+    m.transit = True
+    if m.cb and m.cb[0] == "trig" and m.cb[1] == x and x == OP:
+        extra.append((0x180 + m.nid, bytes([0x77])))       # triggered in OPERATIONAL: sent, not lost; in every other mode: nothing
+    if m.cb and m.cb[0] == "set" and m.cb[1] == x:
+        return m.cb[2]                                       # target differs from the trigger by construction: no further reaction
+    return x
+
+
+def leave_init(m, want, extra):
+    """INITIALISING is left through PRE-OPERATIONAL (boot-up frame); what the application requests in that notification wins."""
+    got = enter(m, PREOP, extra)
+    if want == PREOP or got != PREOP:
+        return got
+    return enter(m, want, extra)
+
+
 def apply_op(m, sim, op, chk):
     """Execute one operation on the real node and check it against the FSM. Returns False on violation."""
     nid = m.nid
     old = m.mode
     boot = []
+    extra = []
     resetreq = 0
     is_reset = False
+    m.transit = False
     if m.mode == DEAD:
         return True              # after CONodeStop the application calls nothing but the probes
+    if op[0] in ("cbset", "cbtrig", "cboff"):
+        m.cb = None if op[0] == "cboff" else (("set", op[1], op[2]) if op[0] == "cbset" else ("trig", op[1]))
+        sim.cmd("modecb 0 off" if m.cb is None else ("modecb %d setmode %d" % (op[1], op[2]) if op[0] == "cbset" else "modecb %d trigpdo 0" % op[1]))
+        return True
     if op[0] == "nmt":
         _, cs, tgt = op
         consumed = m.mode in (PREOP, OP, STOP)
         if consumed and tgt in (nid, 0):
-            if cs == 1:
-                m.mode = OP
-            elif cs == 2:
-                m.mode = STOP
-            elif cs == 128:
-                m.mode = PREOP
+            tgtmode = {1: OP, 2: STOP, 128: PREOP}.get(cs)
+            if tgtmode is not None:
+                if tgtmode != m.mode:
+                    m.mode = enter(m, tgtmode, extra)
             elif cs in (129, 130):
                 is_reset = True
                 resetreq = 1
-                m.mode = PREOP
+                m.transit = True
+                m.mode = leave_init(m, PREOP, extra)
                 boot = [(0x700 + nid, b"\x00")]
         evs = sim.rx(0, bytes([cs, tgt]))
         canrx = (0, 0) if consumed else ((0, 1) if old == INIT else (0, 0))
     elif op[0] == "setmode":
-        if m.mode == INIT and op[1] == PREOP:
-            return True          # not generated: boot-up on forced PREOP from INIT is open
-        m.mode = op[1]
+        if m.mode == INIT and op[1] != INIT:
+            # the only way out of initialisation is PRE-OPERATIONAL with the boot-up frame, whoever asks for it
+            m.mode = leave_init(m, op[1], extra)
+            boot = [(0x700 + nid, b"\x00")]
+        elif op[1] != m.mode:
+            if op[1] == INIT:
+                m.transit = True
+                m.mode = INIT
+            else:
+                m.mode = enter(m, op[1], extra)
         evs = sim.cmd("setmode %d" % op[1])
         canrx = (0, 0)
     elif op[0] == "reset":
         is_reset = True
         if m.mode != INIT:
-            m.mode = PREOP
+            m.transit = True
+            m.mode = leave_init(m, PREOP, extra)
             boot = [(0x700 + nid, b"\x00")]
         evs = sim.cmd("nmtreset %d" % op[1])
         canrx = (0, 0)
     elif op[0] == "start":
         if m.mode == INIT:
-            m.mode = PREOP
+            m.mode = leave_init(m, PREOP, extra)
             boot = [(0x700 + nid, b"\x00")]
         evs = sim.cmd("start")
         canrx = (0, 0)
     else:
         m.mode = DEAD
+        m.transit = True
         evs = sim.cmd("stop")
         canrx = (0, 0)
     if is_reset:
@@ -163,14 +206,24 @@ def apply_op(m, sim, op, chk):
     chk.what = "op %r in mode %d" % (op, old)
     modes = [int(x[1]) for x in S.cbs(evs, "mode")]
     want_last = m.mode if m.mode != DEAD else 0
-    if not chk.step(evs, boot, canrx, {"resetreq": resetreq}, "op"):
+    # frames of one operation: the boot-up frame and what the application triggered in its callback (order between them open)
+    evs_cmp = evs
+    if extra:
+        got = sorted((cid, d.hex()) for (t, cid, dlc, d, f) in S.txs(evs))
+        want = sorted((cid, d.hex()) for (cid, d) in boot + extra)
+        if got != want:
+            chk.fail("op/callback-pdo", "transmitted %r, reference %r (TPDO triggered by the application inside the mode change callback)" % (got, want), expected=want, observed=got)
+            return False
+        evs_cmp = [e for e in evs if e[0] != "tx"]
+        boot = []
+    if not chk.step(evs_cmp, boot, canrx, {"resetreq": resetreq}, "op"):
         return False
-    if m.mode == old and not is_reset:
+    if not m.transit and not is_reset:
         if modes:
             chk.fail("op/mode-callback-without-change", "mode notification %r although the mode did not change" % modes)
             return False
     else:
-        if (m.mode != old or (is_reset and boot)) and (not modes or modes[-1] != want_last):
+        if (m.transit or (is_reset and boot)) and (not modes or modes[-1] != want_last):
             chk.fail("op/mode-callback", "mode notifications %r, last one must be %d" % (modes, want_last))
             return False
     got = int(sim.ret("getmode")[0])
@@ -353,12 +406,12 @@ def run_sequence(res, sim, nid, ops):
                 return False
         if not apply_op(m, sim, op, chk):
             return False
-        if m.mode != OP or old != OP:
+        if m.mode != OP or old != OP or m.transit:
             if m.mode == OP:
                 m.srpdo_pending = None          # (re-)entering OPERATIONAL starts with empty buffers
             elif m.mode == DEAD:
                 m.srpdo_pending = None
-        changes += (m.mode != old)
+        changes += (m.mode != old or m.transit)
         res.states.add((old, op[0], op[1] if len(op) > 1 else 0, m.mode))
         if not probes(m, sim, chk, res):
             return False
@@ -379,6 +432,9 @@ def plan(tier, seed):
             items.append(("enum", depth, a, b0, min(nops, b0 + (7 if q else 2))))
     items += [("rand", i, 60 if q else 400) for i in range(32 if q else 128)]
     items += [("csdo-stopped", i, 0) for i in range(3)]
+    items += [("lss-activate", i, 0) for i in range(3)]
+    # every scripted callback reaction x (armed before / after the start) x every pair (thorough: triple) of operations
+    items += [("cbenum", ci, early, 2 if q else 3) for ci in range(len(callback_ops()) - 1) for early in (0, 1)]
     return items
 
 
@@ -387,7 +443,8 @@ def work(item, ctx):
     exe = ctx["exes"]["asan"]
     kind = item[0]
     rng = random.Random(F.seed_for(ctx["seed"], "C09", *item))
-    nid = rng.choice([1, 5, 127]) if kind in ("rand", "csdo-stopped") else [1, 5, 127][(item[2] + item[3]) % 3]
+    nid = rng.choice([1, 5, 127]) if kind in ("rand", "csdo-stopped", "lss-activate") else [1, 5, 127][(item[2] + item[3]) % 3]
+    cbops = callback_ops()
     alpha = alphabet(nid)
     sim = S.Sim(exe, make_cfg(nid))
     try:
@@ -405,6 +462,34 @@ def work(item, ctx):
                     tmo, [("%x" % c, d) for c, d in bad], len(S.cbs(evs, "csdo"))), sim=sim)
             res.nt("csdo-stopped", item[1])
             return res
+        if kind == "lss-activate":
+            # the LSS bit timing switch takes the node through INITIALISING: when it is back in PRE-OPERATIONAL it has entered that
+            # state from initialisation, so exactly one boot-up frame is due (and none while the switch is running)
+            d = [5, 10, 20][item[1]]
+            sim.cmd("restart"); sim.cmd("start")
+            for rq in (bytes([4, 1, 0, 0, 0, 0, 0, 0]), bytes([19, 0, 4, 0, 0, 0, 0, 0]), bytes([21]) + d.to_bytes(2, "little") + bytes(5)):
+                sim.rx(0x7E5, rq)
+            evs = sim.cmd("tick %d" % (d + 1))
+            during = int(sim.ret("getmode")[0])
+            evs += sim.cmd("tick %d" % (2 * d + 5))
+            boots = [t for (t, cid, dlc, dd, f) in S.txs(evs) if cid == 0x700 + nid and dd == b"\x00"]
+            mode = int(sim.ret("getmode")[0])
+            res.evals += 1
+            if during != INIT or mode != PREOP or len(boots) != 1:
+                res.violation("c09/lss-activate/bootup", "LSS activate bit timing (switch delay %d ms): mode %d during the switch (reference 1), mode %d afterwards (reference 2), %d boot-up frames (reference 1)" % (
+                    d, during, mode, len(boots)), sim=sim)
+            res.nt("lss-activate", item[1])
+            return res
+        if kind == "cbenum":
+            _, ci, early, depth = item
+            for rest in itertools.product(range(len(alpha)), repeat=depth):
+                tail = [alpha[i] for i in rest]
+                ops = ([cbops[ci], ("start",)] if early else [("start",), cbops[ci]]) + tail
+                if not run_sequence(res, sim, nid, ops):
+                    return res
+            if ci == 0 and early:
+                res.sample({"callback_reaction": repr(cbops[ci]), "armed_before_start": True, "tails": len(alpha) ** depth})
+            return res
         if kind == "enum":
             _, depth, a, b0, b1 = item
             # every sequence begins started (PREOP); INIT is reached through setmode/reset inside the sequence
@@ -418,7 +503,7 @@ def work(item, ctx):
         else:
             _, idx, n = item
             for k in range(n):
-                ops = [alpha[rng.randrange(len(alpha))] for _ in range(rng.choice([6, 10, 16]))]
+                ops = [alpha[rng.randrange(len(alpha))] if rng.random() < 0.85 else rng.choice(cbops) for _ in range(rng.choice([6, 10, 16]))]
                 if rng.random() < 0.8:
                     ops = [("start",)] + ops
                 ops = [o for o in ops if o[0] != "stop" or rng.random() < 0.3]
